@@ -69,6 +69,9 @@ type pkgInfo struct {
 	info   *types.Info
 	funcs  map[string]*ast.FuncDecl
 	consts []string
+	// package-level variables: written somewhere in a function body / their initialiser expression
+	writtenGlobals map[types.Object]bool
+	globalInit     map[types.Object]ast.Expr
 }
 
 type fnTr struct {
@@ -398,7 +401,17 @@ func (f *fnTr) expr(e ast.Expr) ex {
 		switch o := f.p.info.Uses[e].(type) {
 		case *types.Var:
 			if o.Parent() == o.Pkg().Scope() {
-				bad(e.Pos(), "package-level variable %s", e.Name)
+				// a package-level variable that no function of the package assigns to (or takes the address of) is a
+				// constant in all but name: its initialiser stands for it. One that IS written is state carried from
+				// call to call: the function is then no function of its arguments, which is reported as such
+				// (STATE: ...) and is a broken obligation of every strict group that needs the function.
+				if f.p.writtenGlobals[o] {
+					bad(e.Pos(), "STATE: package-level variable %s is written by the package's functions: the result depends on earlier calls", e.Name)
+				}
+				if init, ok := f.p.globalInit[o]; ok {
+					return f.expr(init)
+				}
+				bad(e.Pos(), "package-level variable %s without a translatable initialiser", e.Name)
 			}
 			return ex{lname(e.Name), true}
 		case *types.Nil:
@@ -1360,6 +1373,22 @@ func (f *fnTr) translate() (out string, err error) {
 	if fn.Recv != nil || fn.Body == nil {
 		bad(fn.Pos(), "method or bodyless function")
 	}
+	// state first: whatever else in the body may be outside the fragment, a function that reads or writes
+	// package-level variables which the package modifies is reported as stateful
+	ast.Inspect(fn.Body, func(n ast.Node) bool {
+		if id, ok := n.(*ast.Ident); ok {
+			if v, ok := f.p.info.Uses[id].(*types.Var); ok && v.Pkg() != nil && v.Parent() == v.Pkg().Scope() {
+				_, basic := v.Type().Underlying().(*types.Basic)
+				isErr := v.Type().String() == "error"
+				// written by assignment somewhere in the package, or of a type that can change behind a method call or
+				// an alias (struct, pointer, map, slice, atomic.Value, sync.Pool ...); plain error values are not state
+				if f.p.writtenGlobals[v] || (!basic && !isErr) {
+					bad(id.Pos(), "STATE: package-level variable %s can change between calls (assigned by the package, or of a mutable type): the result depends on earlier calls", id.Name)
+				}
+			}
+		}
+		return true
+	})
 	sig := f.p.info.Defs[fn.Name].Type().(*types.Signature)
 	// slice parameters written by the body
 	f.written = map[string]bool{}
@@ -1476,10 +1505,69 @@ func load(dir string) (*pkgInfo, error) {
 			pi.consts = append(pi.consts, c)
 		}
 		sort.Strings(pi.consts)
+		pi.writtenGlobals = map[types.Object]bool{}
+		pi.globalInit = map[types.Object]ast.Expr{}
+		isGlobal := func(e ast.Expr) types.Object {
+			for {
+				switch x := ast.Unparen(e).(type) {
+				case *ast.SelectorExpr:
+					e = x.X
+					continue
+				case *ast.IndexExpr:
+					e = x.X
+					continue
+				case *ast.StarExpr:
+					e = x.X
+					continue
+				case *ast.Ident:
+					if v, ok := info.Uses[x].(*types.Var); ok && v.Pkg() != nil && v.Parent() == v.Pkg().Scope() {
+						return v
+					}
+				}
+				return nil
+			}
+		}
 		for _, f := range files {
 			for _, d := range f.Decls {
 				if fd, ok := d.(*ast.FuncDecl); ok && fd.Recv == nil {
 					pi.funcs[fd.Name.Name] = fd
+				}
+				if gd, ok := d.(*ast.GenDecl); ok && gd.Tok == token.VAR {
+					for _, sp := range gd.Specs {
+						vs := sp.(*ast.ValueSpec)
+						for i, n := range vs.Names {
+							if i < len(vs.Values) {
+								if o := info.Defs[n]; o != nil {
+									pi.globalInit[o] = vs.Values[i]
+								}
+							}
+						}
+					}
+				}
+				if fd, ok := d.(*ast.FuncDecl); ok && fd.Body != nil {
+					ast.Inspect(fd.Body, func(n ast.Node) bool {
+						switch x := n.(type) {
+						case *ast.AssignStmt:
+							if x.Tok != token.DEFINE {
+								for _, l := range x.Lhs {
+									if o := isGlobal(l); o != nil {
+										pi.writtenGlobals[o] = true
+									}
+								}
+							}
+						case *ast.IncDecStmt:
+							if o := isGlobal(x.X); o != nil {
+								pi.writtenGlobals[o] = true
+							}
+						case *ast.UnaryExpr:
+							if x.Op == token.AND {
+								if o := isGlobal(x.X); o != nil {
+									pi.writtenGlobals[o] = true
+								}
+							}
+						}
+						return true
+					})
 				}
 			}
 		}
@@ -1602,6 +1690,13 @@ func main() {
 		consts[d] = p.consts
 	}
 	report["constants"] = consts
+	stateful := map[string]string{}
+	for k, v := range failed {
+		if strings.Contains(v, "STATE:") {
+			stateful[k] = v
+		}
+	}
+	report["stateful"] = stateful
 	report["translated"] = tl
 	report["untranslated"] = failed
 	js, _ := json.MarshalIndent(report, "", " ")
